@@ -111,9 +111,18 @@ def check(run: Run, prog: Program, model: Model, tier: str) -> None:
         run.violated("NE-NEGATION", "Schema.__ne__", model.schema_base.loc, "no __ne__ defined on Schema", witness="a != b is not (a == b)")
     else:
         ok = False
+
+        def _is_eq_expr(x: Any) -> bool:
+            return (isinstance(x, ast.Call) and isinstance(x.func, ast.Attribute) and x.func.attr == "__eq__"
+                    and isinstance(x.func.value, ast.Name) and x.func.value.id == "self") or \
+                   (isinstance(x, ast.Compare) and len(x.ops) == 1 and isinstance(x.ops[0], ast.Eq))
+        eq_locals = {t.id for n in ast.walk(ne.node) if isinstance(n, (ast.Assign, ast.AnnAssign)) and n.value is not None
+                     and _is_eq_expr(n.value) for t in (n.targets if isinstance(n, ast.Assign) else [n.target]) if isinstance(t, ast.Name)}
         for n in ast.walk(ne.node):
             if isinstance(n, ast.Return) and isinstance(n.value, ast.UnaryOp) and isinstance(n.value.op, ast.Not):
                 inner = n.value.operand
+                if isinstance(inner, ast.Name) and inner.id in eq_locals:
+                    ok = True           # is_equal = self.__eq__(other); return not is_equal
                 if isinstance(inner, ast.Call) and isinstance(inner.func, ast.Attribute) and inner.func.attr == "__eq__" \
                         and isinstance(inner.func.value, ast.Name) and inner.func.value.id == "self":
                     ok = True
@@ -182,8 +191,25 @@ def check(run: Run, prog: Program, model: Model, tier: str) -> None:
     if oe is None or oh is None:
         run.violated("OPTIONAL-EQ-HASH", "optional", oc.loc, "optional lacks __eq__ or __hash__", witness="optional('a') != optional('a') / unhashable")
     else:
-        fe = {n.attr for n in ast.walk(oe.node) if isinstance(n, ast.Attribute) and isinstance(n.value, ast.Name) and n.value.id == "self"} - {"__class__"}
-        fh = {n.attr for n in ast.walk(oh.node) if isinstance(n, ast.Attribute) and isinstance(n.value, ast.Name) and n.value.id == "self"} - {"__class__"}
+        def fields_of(fi: Any, who: str = "self", depth: int = 0) -> Set[str]:
+            """attributes of the marker that the method reads - also through a helper it hands the marker to"""
+            out = {n.attr for n in ast.walk(fi.node) if isinstance(n, ast.Attribute) and isinstance(n.value, ast.Name) and n.value.id == who}
+            if depth < 2:
+                for n in ast.walk(fi.node):
+                    if isinstance(n, ast.Call) and any(isinstance(a, ast.Name) and a.id == who for a in n.args):
+                        callee = prog.resolve_expr(fi.module, n.func) if isinstance(n.func, ast.Name) else (
+                            oc.lookup(n.func.attr) if isinstance(n.func, ast.Attribute) and isinstance(n.func.value, ast.Name)
+                            and n.func.value.id == who else None)
+                        if isinstance(callee, FuncInfo):
+                            params = [a.arg for a in callee.node.args.posonlyargs + callee.node.args.args]
+                            pos = [i for i, a in enumerate(n.args) if isinstance(a, ast.Name) and a.id == who]
+                            off = 1 if (callee.cls is not None and params and params[0] == "self") else 0
+                            for i in pos:
+                                if i + off < len(params):
+                                    out |= fields_of(callee, params[i + off], depth + 1)
+            return out - {"__class__"}
+        fe = fields_of(oe)
+        fh = fields_of(oh)
         norm = lambda s: {x.lstrip("_") for x in s}  # noqa
         if norm(fe) == norm(fh) and fe:
             run.holds("OPTIONAL-EQ-HASH", "optional.__eq__/__hash__", oc.loc, f"both use {sorted(fe)}", nontrivial=False)
